@@ -61,7 +61,7 @@ ENTRY = {
         "bare untyped NULL literals are not generated (most arms reject a NullArray with a type error); typed NULLs and NULL column rows are",
         "date literals are limited to years 1..9999; other dates are passed as Date32 columns; |days| <= 3.7e6; levenshtein/hamming inputs have <= 5 characters",
     ],
-    "min_tags": dict([(f, 12) for f in MODELLED] + [(l, 2) for l in LAWS] + [("mode:lit", 300), ("mode:col", 300), ("mode:mixed", 100), ("out:null", 100), ("out:raises", 50)]),
+    "min_tags": dict([(f, 12) for f in MODELLED] + [(l, 2) for l in LAWS] + [("mode:lit", 300), ("mode:col", 300), ("mode:mixed", 100), ("out:null", 100), ("out:raises", 5)]),
     "manifest": {
         "category": "proof",
         "text": "PARTIAL by design. Lean definitions (IQE.Spec.Fn) of the documented meaning of 85 scalar functions (integer math, 64-bit bitwise, strings over code "
